@@ -597,10 +597,52 @@ func (c *Ctx) c13Commit(m *pop3Model) {
 			delIter[v.iter] = true
 		}
 	}
+	// the loops to judge: snapshot loops of the delete processor (or of the iterator it uses),
+	// and any other loop around a RemoveMessage call (a loop over the messages collected first:
+	// for _, msg := range s.deletedMessages() { remove(msg) })
+	type delLoop struct {
+		fn     *ssa.Function
+		header *ssa.BasicBlock
+	}
+	var delLoops []delLoop
+	haveLoop := map[*ssa.BasicBlock]bool{}
 	for _, lp := range m.snapshotLoops() {
 		if lp.fn != m.deleteProc && !delIter[lp.fn] {
 			continue
 		}
+		if !haveLoop[lp.header] {
+			haveLoop[lp.header] = true
+			delLoops = append(delLoops, delLoop{lp.fn, lp.header})
+		}
+	}
+	for _, fn := range m.fns {
+		fn := fn
+		eng.EachInstr(fn, func(in ssa.Instruction) {
+			call, ok := in.(*ssa.Call)
+			if !ok || !eng.IsCallTo(call.Common(), m.rmObj) {
+				return
+			}
+			site := ssa.Instruction(in)
+			for depth := 0; depth < 3; depth++ {
+				for _, h := range loopHeaders(site.Block()) {
+					if !haveLoop[h] {
+						haveLoop[h] = true
+						delLoops = append(delLoops, delLoop{site.Parent(), h})
+					}
+				}
+				sites := p.StaticCallSites(site.Parent())
+				if len(loopHeaders(site.Block())) > 0 || site.Parent().Parent() != nil || len(sites) != 1 {
+					break
+				}
+				site = sites[0].Instr.(ssa.Instruction)
+			}
+		})
+	}
+	if len(delLoops) == 0 {
+		r.Undecided("C13/COMMIT", "delete-loop-complete", p.Pos(m.deleteProc.Pos()), "the loop in which the delete processor removes the marked messages was not found")
+	}
+	ordDL := map[string]int{}
+	for _, lp := range delLoops {
 		bodyEntry := lp.header.Succs[0]
 		early := ""
 		for _, b := range lp.fn.Blocks {
@@ -618,10 +660,15 @@ func (c *Ctx) c13Commit(m *pop3Model) {
 				}
 			}
 		}
+		cons := "delete-loop-complete"
+		ordDL[cons]++
+		if ordDL[cons] > 1 {
+			cons += "#" + itoa(int64(ordDL[cons]))
+		}
 		if early != "" {
-			r.Bad("C13/COMMIT", "delete-loop-complete", p.InstrPos(eng.IfOf(lp.header)), "the delete processor can leave its loop early (%s): when one removal fails (e.g. the message was already removed by another client or by retention) the remaining marked messages are never removed", early)
+			r.Bad("C13/COMMIT", cons, p.InstrPos(eng.IfOf(lp.header)), "the delete processor can leave its loop early (%s): when one removal fails (e.g. the message was already removed by another client or by retention) the remaining marked messages are never removed", early)
 		} else {
-			r.Ok("C13/COMMIT", "delete-loop-complete", p.InstrPos(eng.IfOf(lp.header)), "the delete loop has no early exit: every marked message is attempted")
+			r.Ok("C13/COMMIT", cons, p.InstrPos(eng.IfOf(lp.header)), "the delete loop has no early exit: every marked message is attempted")
 		}
 	}
 	// delete processor calls
